@@ -8,11 +8,17 @@ package main
 import (
 	"fmt"
 	"os"
+	"sort"
+	"strings"
 	"sync"
 	"time"
 
+	listener "github.com/envoyproxy/go-control-plane/envoy/config/listener/v3"
+	hcm "github.com/envoyproxy/go-control-plane/envoy/extensions/filters/network/http_connection_manager/v3"
+
 	"istio.io/istio/pilot/pkg/model"
 	"istio.io/istio/pilot/pkg/xds"
+	"istio.io/istio/pilot/test/xdstest"
 	"istio.io/istio/pkg/config/host"
 	"verifharness/internal/wire"
 )
@@ -100,7 +106,7 @@ func awaitStateVisible(st *site, w *world, ops []Op) {
 			if o.K != "se" && !(o.K == "del" && o.Kind == "se") {
 				continue
 			}
-			for _, hn := range allHosts {
+			for _, hn := range allHostsWide {
 				// the hostname must resolve iff some ServiceEntry of the world still defines it
 				defined := false
 				for _, k := range sortedKeys(w.Cfg) {
@@ -123,6 +129,109 @@ func awaitStateVisible(st *site, w *world, ops []Op) {
 		time.Sleep(pollEvery)
 	}
 	time.Sleep(calmTime)
+}
+
+// lagScope is what the known class "events behind state" may touch in one lag case: the hostnames of
+// the ServiceEntries (before and after) and the hosts of the DestinationRules (before and after) among
+// the ops of the lagged step and of the step applied on top of it.
+type lagScope struct {
+	seHosts map[string]bool
+	drHosts map[string]bool
+}
+
+func newLagScope(w *world, groups ...[]Op) *lagScope {
+	l := &lagScope{seHosts: map[string]bool{}, drHosts: map[string]bool{}}
+	w = w.clone()
+	for _, ops := range groups {
+		for _, o := range ops {
+			old, had := w.Cfg[o.key()]
+			switch {
+			case o.K == "se" || (o.K == "del" && o.Kind == "se"):
+				for _, h := range o.Hosts {
+					l.seHosts[h] = true
+				}
+				if had {
+					for _, h := range old.Hosts {
+						l.seHosts[h] = true
+					}
+				}
+			case o.K == "dr" || (o.K == "del" && o.Kind == "dr"):
+				if o.Host != "" {
+					l.drHosts[o.Host] = true
+				}
+				if had && old.Host != "" {
+					l.drHosts[old.Host] = true
+				}
+			}
+			w.note(o)
+		}
+	}
+	return l
+}
+
+// known reports whether EVERY difference has the symptom of the known class: the delta client keeps
+// a CDS / EDS resource (`only-b`) of a host whose ServiceEntry or DestinationRule was part of the
+// scripted race, or keeps the old DestinationRule's settings on a cluster of that rule's host
+// (`differs`, CDS only). Anything else - in particular a resource the delta client LACKS - is a
+// plain delta-ne-sotw.
+func (l *lagScope) known(ds []diff) bool {
+	if l == nil || len(ds) == 0 {
+		return false
+	}
+	for _, d := range ds {
+		if d.Type != "CDS" && d.Type != "EDS" {
+			return false
+		}
+		h := model.ParseSubsetKeyHostname(d.Name)
+		switch d.Kind {
+		case "only-b":
+			if !l.seHosts[h] && !l.drHosts[h] {
+				return false
+			}
+		case "differs":
+			if d.Type != "CDS" || !l.drHosts[h] {
+				return false
+			}
+		default:
+			return false
+		}
+	}
+	return true
+}
+
+// c03Types: what stream c03 compares (ECDS: the extension configs the listeners held refer to by
+// config discovery; like every named resource they are dropped when nothing refers to them any more).
+var c03Types = []string{"CDS", "EDS", "LDS", "RDS", "ECDS"}
+
+// ecdsOfListener: the names of the HTTP filters of a listener that are configured by discovery.
+func ecdsOfListener(l *listener.Listener) []string {
+	var out []string
+	chains := append([]*listener.FilterChain{}, l.FilterChains...)
+	if l.DefaultFilterChain != nil {
+		chains = append(chains, l.DefaultFilterChain)
+	}
+	for _, fc := range chains {
+		for _, f := range fc.Filters {
+			if f.Name != "envoy.filters.network.http_connection_manager" {
+				continue
+			}
+			h := xdstest.SilentlyUnmarshalAny[hcm.HttpConnectionManager](f.GetTypedConfig())
+			for _, hf := range h.GetHttpFilters() {
+				if hf.GetConfigDiscovery() != nil {
+					out = append(out, hf.Name)
+				}
+			}
+		}
+	}
+	return out
+}
+
+func ecdsNamesOfHeld(m map[string]resEntry) []string {
+	var out []string
+	for _, x := range m {
+		out = append(out, x.Ecds...)
+	}
+	return out
 }
 
 func opNames(w *world, o Op) []string {
@@ -150,6 +259,8 @@ func genC03(r *wire.Rng) *History {
 	if ztEnabled && r.Chance(1, 4) {
 		return genC03Zt(r)
 	}
+	wideGrammar = true
+	defer func() { wideGrammar = false }()
 	h := &History{Stream: "c03", Flavor: "envoy", Debounce: wire.Pick(r, []int{0, 5, 20}), Explicit: r.Chance(1, 2)}
 	clock := 0
 	h.Base = genBase(r, &clock)
@@ -178,6 +289,12 @@ func genC03(r *wire.Rng) *History {
 	for _, ops := range h.Steps {
 		if len(ops) > 1 {
 			h.Debounce = 50
+		}
+		for _, o := range ops {
+			// the registry's by-address index trails the event that announces a new instance (see targetsStale)
+			if o.N == inboundSE && h.Debounce < 20 {
+				h.Debounce = 20
+			}
 		}
 	}
 	// a quarter of the cases hold back the events of one single-op step while the next step is pushed
@@ -248,6 +365,54 @@ func settle(st *site, stt *stats, cmp func() []diff, cs ...activity) ([]diff, bo
 	return d, true
 }
 
+// serviceTargets: what the server believes each connected proxy serves (hostname:port per
+// connection). The two clients of a case are one workload: if these differ, the two connections
+// were not given the same inputs by the registries (a race outside the statement of C03).
+func serviceTargets(st *site) map[string][]string {
+	out := map[string][]string{}
+	for _, c := range st.s.Discovery.AllClients() {
+		p := c.Proxy()
+		if p == nil {
+			continue
+		}
+		p.RLock()
+		var ts []string
+		for _, t := range p.ServiceTargets {
+			ts = append(ts, string(t.Service.Hostname)+":"+itoa(int(t.Port.TargetPort)))
+		}
+		p.RUnlock()
+		sort.Strings(ts)
+		out[p.ID] = ts
+	}
+	return out
+}
+
+// targetsStale: some connection's ServiceTargets are not what the registries answer NOW for that
+// proxy. With a short debounce the push of a ServiceEntry event can be computed before the
+// registry's by-address index shows the new instance (that index is derived asynchronously from
+// the same event): the connection then has no inbound configuration for a service that selects it
+// until something refreshes its targets. That is a race between registry and push (the subject of
+// C01, observation O-C03-3 in notes/C03.md), and it hits the two connections of a case
+// independently: they are no longer "the same proxy with the same history".
+func targetsStale(st *site) bool {
+	sd := st.s.Env().ServiceDiscovery
+	for _, c := range st.s.Discovery.AllClients() {
+		p := c.Proxy()
+		if p == nil {
+			continue
+		}
+		var now []string
+		for _, t := range sd.GetProxyServiceTargets(p) {
+			now = append(now, string(t.Service.Hostname)+":"+itoa(int(t.Port.TargetPort)))
+		}
+		sort.Strings(now)
+		if strings.Join(now, ",") != strings.Join(serviceTargets(st)[p.ID], ",") {
+			return true
+		}
+	}
+	return false
+}
+
 func clientInfo(es ...*envoy) map[string]any {
 	out := map[string]any{}
 	for _, e := range es {
@@ -291,11 +456,19 @@ func runC03(h *History, stt *stats) result {
 	cmp := func() []diff {
 		a, b := sotw.snapshot(), delta.snapshot()
 		stt.Comparisons++
-		stt.Compared += countHeld(a, envoyTypes)
-		return compareHeld(a, b, envoyTypes)
+		stt.Compared += countHeld(a, c03Types)
+		return compareHeld(a, b, c03Types)
 	}
+	var lag *lagScope
 	check := func(step int) *result {
 		d, ok := settle(st, stt, cmp, sotw, delta)
+		if ok && len(d) > 0 && targetsStale(st) {
+			// restore comparability with a forced full push (a resync, as any mesh-config change causes)
+			stt.Extra["service-targets-race-repaired"]++
+			st.s.Discovery.ConfigUpdate(&model.PushRequest{Forced: true, Reason: model.NewReasonStats(model.DebugTrigger)})
+			time.Sleep(calmTime)
+			d, ok = settle(st, stt, cmp, sotw, delta)
+		}
 		if !ok {
 			r := timeoutResult("quiescence", merge(map[string]any{"after_step": step}, clientInfo(sotw, delta)))
 			return &r
@@ -305,14 +478,14 @@ func runC03(h *History, stt *stats) result {
 		}
 		if len(d) > 0 {
 			clause := "delta-ne-sotw"
-			if h.Lag != nil && step > h.Lag.Step {
+			if h.Lag != nil && step > h.Lag.Step && lag.known(d) {
 				// the scripted race: the events of one change were delivered after a push built from a
-				// context that already contained it. The damage can be latent (both clients equally
-				// stale until the next full CDS build repairs only the SotW client), so every
-				// difference from the release on belongs to the class.
+				// context that already contained it, and the delta client keeps what that change removed.
+				// The damage can be latent (both clients equally stale until the next full CDS build
+				// repairs only the SotW client), so it may show at any step from the release on.
 				clause = "delta-ne-sotw:events-behind-state"
 			}
-			return &result{Clause: clause, Detail: merge(map[string]any{"after_step": step, "n": len(d), "diff": limitDiffs(d, 6),
+			return &result{Clause: clause, Detail: merge(map[string]any{"after_step": step, "n": len(d), "diff": limitDiffs(d, 12), "service_targets": serviceTargets(st),
 				"a": "sotw client", "b": "delta client"}, clientInfo(sotw, delta))}
 		}
 		for _, e := range []*envoy{sotw, delta} {
@@ -346,6 +519,7 @@ func runC03(h *History, stt *stats) result {
 		ops := h.Steps[i]
 		if h.Lag != nil && h.Lag.Step == i+1 && i+1 < len(h.Steps) {
 			gate = installReqGate(h.Lag.Names, h.Lag.Next)
+			lag = newLagScope(w, ops, h.Steps[i+1])
 			if r := applyQuick(ops); r != nil {
 				return *r
 			}
